@@ -366,6 +366,9 @@ MUTS = {
  'ctor_lt_le':        ("if p < 1:", "if p <= 1:", ['__init__']),
  'ctor_spacings':     ("for i in range(p + k - 1):", "for i in range(p + k):", ['__init__']),
  'ctor_nondecr_sign': ("if knots[i + 1] - knots[i] < -state.knot_tolerance:", "if knots[i + 1] - knots[i] < state.knot_tolerance:", ['__init__']),
+ 'ctor_short_periodic': ("            if n < p + k + 1:\n", "            if n < p + k:\n", ['__init__']),
+ 'continuity_end_tol':  ("elif knot < self.start() - state.knot_tolerance or self.end() + state.knot_tolerance < knot:",
+                         "elif knot < self.start() - state.knot_tolerance or self.end() < knot:", ['continuity']),
  'continuity_bisect': ("hi = bisect_left(self.knots, knot + state.knot_tolerance)", "hi = bisect_right(self.knots, knot + state.knot_tolerance)", ['continuity']),
  'insert_drop_ghost': ("            if mu <= p+r: # need to fix ghost knots on right side", "            if False and mu <= p+r: # need to fix ghost knots on right side", ['insert_knot']),
  'insert_coef':       ("C[i % (n + 1), i % n] = (new_knot - self.knots[i]) / (", "C[i % (n + 1), i % n] = (new_knot - self.knots[i+1]) / (", ['insert_knot']),
